@@ -130,6 +130,9 @@ def units(run: Run):
     for n in ((9,) if quick else (9, 10)):
         us.append((n, f"n{n}:budget3", A.budget_game(n, 3), ("fresh", "few", "cached-only"), 0.0))
         us.append((n, f"n{n}:convex-shift", A.shifted(A.convex_game(n), A.SHIFT_LONG[:n]), ("fresh", "few", "cached-only"), 0.0))
+    # the uncached computer at n = 9 as well, near the minimal information (ids above 256, negative and unequal singleton values)
+    us.append((9, "n9:convex-shift/both", A.shifted(A.convex_game(9), A.SHIFT_LONG[:9]), ("fresh", "few"), 0.0))
+    us.append((9, "n9:budget3/both", A.budget_game(9, 3), ("fresh", "few"), 0.0))
     for n in (7, 8):
         us.append((n, f"n{n}:budget2", A.budget_game(n, 2), ("fresh", "few") if quick else ("fresh",), 0.0))
     # float-valued generator families (tolerance G2)
